@@ -18,10 +18,20 @@
 // public New*Key constructors; public-only handles are used with well-formed inputs (what the
 // untouched private twin signs, random strings of signature length, twin decryption). These
 // passes run last on their own random stream, so the lines of the older passes are unchanged.
+//
+// Round 4 (nested.go, structpq.go; again last, own streams; -mode nested | structpq): role swaps in
+// nested keys — every KeyData / KeyTemplate field inside a key proto (composite ML-DSA halves, the
+// deriver's PRF key and derived-key template, the KMS envelope DEK template, the ECIES DEM
+// template) is given well-formed keys / templates of another role (private for public, public for
+// private, another type with the same parameters, another algorithm, symmetric for asymmetric),
+// and the registered key-level constructors are called on every accepted entry; structured
+// public/private mismatches of the post-quantum and hybrid keys (X-Wing, ML-KEM, ML-DSA, SLH-DSA,
+// composite halves, every bit of X25519 / Ed25519 public values).
 package main
 
 import (
 	"os"
+	"runtime/pprof"
 	"strings"
 
 	"github.com/tink-crypto/tink-go/v2/aead"
@@ -35,16 +45,17 @@ import (
 )
 
 type world struct {
-	o          *hlib.Out
-	rng        *hlib.Rng
-	pool       *kslib.Pool
-	master     tink.AEAD
-	weakRSA    []*kslib.RSAParts
-	slhBudget  int
-	hugeBudget int
-	jsonFlip   bool
-	byType     map[string][]int // pool indices per Type
-	tw         twins            // signatures of the private twins (twin.go)
+	o            *hlib.Out
+	rng          *hlib.Rng
+	pool         *kslib.Pool
+	master       tink.AEAD
+	weakRSA      []*kslib.RSAParts
+	slhBudget    int
+	hugeBudget   int
+	jsonFlip     bool
+	byType       map[string][]int // pool indices per Type
+	tw           twins            // signatures of the private twins (twin.go)
+	nestAccepted []nestedCase     // accepted nested substitutions (nested.go)
 }
 
 func clonePK(pk *kslib.PoolKey) *tinkpb.KeyData { return proto.Clone(pk.KD).(*tinkpb.KeyData) }
@@ -536,6 +547,13 @@ func kindClass(k string) string {
 func main() {
 	o := hlib.Open("c14")
 	defer o.Close()
+	if pf := os.Getenv("VERIF_C14_CPUPROFILE"); pf != "" { // for tuning the tier budgets
+		if f, err := os.Create(pf); err == nil {
+			if pprof.StartCPUProfile(f) == nil {
+				defer pprof.StopCPUProfile()
+			}
+		}
+	}
 	w := &world{o: o, rng: hlib.NewRng(*hlib.FlagSeed, "c14"), byType: map[string][]int{}}
 	kslib.InstallDetRand(*hlib.FlagSeed)
 	w.pool = kslib.BuildPool()
@@ -582,6 +600,11 @@ func main() {
 		w.round3(mode)
 		return
 	}
+	// -mode nested | structpq: only one of the round-4 passes
+	if mode == "nested" || mode == "structpq" {
+		w.round4(mode)
+		return
+	}
 
 	// every pool key alone, unmutated: each key type is accepted and usable
 	for _, pk := range w.pool.Keys {
@@ -614,6 +637,21 @@ func main() {
 	// round 3, again last and on their own streams: structured public/private mismatches, large
 	// keysets with structural faults at chosen positions, foreign integer encodings of EC keys
 	w.round3("")
+
+	// round 4, last and on their own streams: role swaps in nested keys / templates (nested.go),
+	// structured mismatches of the post-quantum and hybrid key types (structpq.go)
+	w.round4("")
+}
+
+func (w *world) round4(only string) {
+	if only == "" || only == "nested" {
+		w.rng = hlib.NewRng(*hlib.FlagSeed, "c14-nested")
+		w.nestedRoleSwaps()
+	}
+	if only == "" || only == "structpq" {
+		w.rng = hlib.NewRng(*hlib.FlagSeed, "c14-structpq")
+		w.structuredPQ()
+	}
 }
 
 func (w *world) round3(only string) {
